@@ -1,6 +1,6 @@
 (* Props/C06.v -- property C06: scalars are interpreted exactly per requested type and options;
    never wrapped.  Only statements, `exact`, `Check` pins and Print Assumptions live here. *)
-From SS Require Import Model.Scalars Proofs.ScalarsInt Proofs.ScalarsMisc.
+From SS Require Import Model.Scalars Proofs.ScalarsInt Proofs.ScalarsMisc Proofs.ScalarsB64.
 Local Open Scope N_scope.
 
 (* Integers: for every width, text and legacy-octal setting the parser returns exactly the
@@ -114,3 +114,23 @@ Theorem C06_tag_table : forall t, sftag_from_optional t <= TAG_Other.
 Proof. exact sftag_from_optional_total. Qed.
 Check C06_tag_table : forall t, sftag_from_optional t <= TAG_Other.
 Print Assumptions C06_tag_table.
+
+(* `!!binary` payloads are STRICT CANONICAL base64: for every byte string the decoder reads back the reference
+   (RFC 4648, padded) encoding, and whatever text it accepts is -- ASCII white space aside -- exactly the
+   reference encoding of the bytes it returns: no payload has a second accepted spelling (non-zero padding
+   bits, missing, surplus or inner padding, other alphabets). *)
+Theorem C06_binary_decodes_every_payload : forall bs,
+  bytes_ok bs -> decode_base64_yaml (b64_encode bs) = Some bs.
+Proof. exact every_payload_is_read_back. Qed.
+Check C06_binary_decodes_every_payload : forall bs,
+  bytes_ok bs -> decode_base64_yaml (b64_encode bs) = Some bs.
+Print Assumptions C06_binary_decodes_every_payload.
+
+Theorem C06_binary_is_strict_canonical : forall s d,
+  decode_base64_yaml s = Some d ->
+  bytes_ok d /\ b64_encode d = filter (fun b => negb (is_ascii_ws b)) s.
+Proof. exact binary_payload_is_strict_canonical. Qed.
+Check C06_binary_is_strict_canonical : forall s d,
+  decode_base64_yaml s = Some d ->
+  bytes_ok d /\ b64_encode d = filter (fun b => negb (is_ascii_ws b)) s.
+Print Assumptions C06_binary_is_strict_canonical.
